@@ -22,6 +22,7 @@ from rs2v import Module, Untranslatable, strip_comments, read, find_fn, balanced
 
 SPSC = "src/media/spsc.rs"
 TRACK = "src/media/track.rs"
+PIPE = "src/media/pipeline.rs"
 
 ORD = {"Relaxed": "ORelaxed", "Acquire": "OAcquire", "Release": "ORelease", "AcqRel": "OAcqRel", "SeqCst": "OSeqCst"}
 ORDP = r"(?:std::sync::atomic::)?Ordering::(\w+)"
@@ -47,8 +48,8 @@ def scan(body, patterns, what, guards=()):
             tok = fn(m)
             if tok is not None:
                 hits.append((m.start(), tok))
-    # guard scopes: an SkUnlock token where the block that declares the guard ends
-    for rx in guards:
+    # guard scopes: an unlock token where the block that declares the guard ends
+    for rx, tok in guards:
         for m in re.finditer(rx, body):
             depth = 0
             i = m.end()
@@ -58,11 +59,14 @@ def scan(body, patterns, what, guards=()):
                 elif body[i] == "}":
                     depth -= 1
                     if depth < 0:
-                        hits.append((i, "SkUnlock"))
+                        # guards ending at the same brace are released in reverse order of declaration
+                        hits.append((i + 0.5 * (1.0 - m.start() / float(len(body))), tok))
                         break
                 i += 1
             else:
-                raise Untranslatable("%s: cannot find the end of the lock guard's block" % what)
+                # the guard lives until the end of the function body; guards are released in
+                # reverse order of declaration
+                hits.append((2 * len(body) - m.start(), tok))
     rest = "".join(c for c, t in zip(body, taken) if not t)
     for bad in (r"self\s*\.", r"Ordering", r"\breturn\b", r"\.get\(\)", r"\bunsafe\s*\{\s*[^\s};]", r"\.await", r"\?"):
         mm = re.search(bad, rest)
@@ -171,6 +175,7 @@ def gen_spscprog():
         (r"self\.queue\.push\(sample\)", lambda mm: "SkCallPush"),
         (r"self\.queue\.pop\(\)", lambda mm: "SkCallPop"),
         (r"self\.queue\.is_empty\(\)", lambda mm: "SkIsEmpty"),
+        (r"self\.push_lock\.lock\(\)", lambda mm: "SkPushLock"),
         (r"self\.pop_lock\.try_lock\(\)", lambda mm: "SkTryLock"),
         (r"self\.pop_lock\.lock\(\)", lambda mm: "SkLock"),
         (r"self\.notify\.notify_one\(\)", lambda mm: "SkNotifyOne"),
@@ -189,10 +194,10 @@ def gen_spscprog():
         (r"\bOk\(\(\)\)\s*\}?\s*$", lambda mm: "SkRetOk"),
         (r"for\s+sample\s+in\s+samples\b", lambda mm: "SkForEachSample"),
         # clone(): the Arc field copies are not shared-memory operations of the queue protocol
-        (r"(id|queue|notify|pop_lock|source_closed|active_senders|drop_count):\s*self\.\1\.clone\(\)", lambda mm: None),
+        (r"(id|queue|notify|pop_lock|push_lock|source_closed|active_senders|drop_count):\s*self\.\1\.clone\(\)", lambda mm: None),
         (r"kind:\s*self\.kind\b", lambda mm: None),
     ]
-    guard = [r"let\s+_pop_guard\s*="]
+    guard = [(r"let\s+_pop_guard\s*=", "SkUnlock"), (r"let\s+_push_guard\s*=", "SkPushUnlock")]
     items = [
         ("try_send_drop_oldest", "SampleStreamSource", "send_drop_oldest_skel"),
         ("try_send", "SampleStreamSource", "try_send_skel"),
@@ -207,6 +212,39 @@ def gen_spscprog():
         _, _, body = find_fn(tsrc, fn, impl)
         m.raw(lit(name, scan(body, track_patterns, "%s::%s" % (impl, fn), guards=guard)),
               "fn %s::%s (shared-memory skeleton)" % (impl, fn), TRACK)
+    # ---------------------------------------------------------------------------------- pipeline.rs
+    psrc = strip_comments(read(PIPE))
+    pipe_patterns = [
+        (r"if\s+self\.queue\.is_empty\(\)\s*&&\s*!self\.closed\.load\(%s\)" % ORDP,
+         lambda mm: "SkIsEmpty;\n   SkLoad SkClosed %s" % ordering(mm.group(1))),
+        (r"self\s*\.closed\s*\.load\(%s\)" % ORDP, flag_load("SkClosed")),
+        (r"self\s*\.closed\s*\.store\(true,\s*%s\)" % ORDP, flag_store("SkClosed")),
+        (r"self\.queue\.push\(sample\)", lambda mm: "SkCallPush"),
+        (r"self\.queue\.pop\(\)", lambda mm: "SkCallPop"),
+        (r"self\.push_lock\.lock\(\)", lambda mm: "SkPushLock"),
+        (r"self\.pop_lock\.try_lock\(\)", lambda mm: "SkTryLock"),
+        (r"self\.pop_lock\.lock\(\)", lambda mm: "SkLock"),
+        (r"self\.notify\.notify_one\(\)", lambda mm: "SkNotifyOne"),
+        (r"self\.notify\.notify_waiters\(\)", lambda mm: "SkNotifyWaiters"),
+        (r"let\s+notified\s*=\s*self\.notify\.notified\(\);", lambda mm: "SkNotifiedCreate"),
+        (r"\bnotified\.await", lambda mm: "SkNotifiedAwait"),
+        (r"if\s+closed\s*\{", lambda mm: "SkIfClosedLocal"),
+        (r"return\s+Err\(\(\)\)", lambda mm: "SkRetErrClosed"),
+        (r"return\s+Err\(sample\)", lambda mm: "SkRetErrClosed"),
+        (r"Err\(sample\)\s*=>\s*Err\(sample\)", lambda mm: "SkRetErrWouldBlockIfFull"),
+        (r"None\s*=>\s*return\s+Ok\(\(\)\)", lambda mm: "SkRetOkIfLockBusy"),
+        (r"return\s+Ok\(\(\)\)", lambda mm: "SkRetOk"),
+        (r"return\s+Some\(sample\)", lambda mm: "SkRetSample"),
+        (r"return\s+None", lambda mm: "SkRetEos"),
+        (r"\bOk\(\(\)\)\s*=>", lambda mm: None),
+        (r"\bOk\(\(\)\)", lambda mm: "SkRetOk"),
+    ]
+    pguard = [(r"let\s+_guard\s*=", "SkUnlock"), (r"let\s+_push_guard\s*=", "SkPushUnlock")]
+    for fn, impl, name in (("send", "SampleQueueSender", "q_send_skel"), ("try_send", "SampleQueueSender", "q_try_send_skel"),
+                           ("drop", "Drop for SampleQueueSender", "q_drop_skel"), ("recv", "SampleQueueReceiver", "q_recv_skel")):
+        _, _, body = find_fn(psrc, fn, impl)
+        m.raw(lit(name, scan(body, pipe_patterns, "%s::%s" % (impl, fn), guards=pguard)),
+              "fn %s::%s (shared-memory skeleton)" % (impl, fn), PIPE)
     return m
 
 
